@@ -110,7 +110,7 @@ def run(tier, seed):
         tcases = []
         for b in c09.gen_cases("quick", rng)[: (60 if tier == "quick" else 600)]:
             f = b.split()
-            if int(f[1]) > 3: continue
+            if int(f[1]) > 3 or int(f[2]) != 0: continue
             masks = rng.choice([[63], [62, 1], [6, 8, 48, 1], [2, 4, 8, 16, 32, 1]])
             nf = int(f[7])
             tcases.append("execcnttsm " + " ".join(f[1:7]) + " %d %s " % (len(masks), " ".join(map(str, masks))) + " ".join(f[8 + nf:]))
